@@ -70,10 +70,13 @@ def realRoot (t : Addr → Option Acct) : String := hexOfBytes (stateRootSpec HK
 
 structure DState where
   cur : SDB
-  oth : Option SDB
+  alts : List SDB            -- the other live StateDBs (copies, instances opened at a committed root), at most 2
   committed : Array (Addr → Option Acct)
   classes : Array String
   quiet : Bool := false      -- cold-cache history: observations only after fi/rt/cm/dm
+
+def pushAlt (alts : List SDB) (o : SDB) : List SDB :=
+  (if alts.length ≥ 2 then alts.drop 1 else alts) ++ [o]
 
 def classOf (d : DState) (fp : String) : DState × String :=
   match d.classes.findIdx? (· == fp) with
@@ -154,13 +157,18 @@ def act (d : DState) (a : String) : Option Res :=
   | ["cp"] =>
     let c := copy s
     if c.fault then some .panic else
-    some (.ok { d with oth := some c } ("ok/" ++ showState s ++ "/" ++ showState c))
+    some (.ok { d with alts := pushAlt d.alts c } ("ok/" ++ showState s ++ "/" ++ showState c))
+  | ["on", k] => do
+    let k ← parseNat k
+    match d.committed[k]? with
+    | none => some .panic
+    | some c => let n := fresh c; some (.ok { d with alts := pushAlt d.alts n } ("ok/" ++ showState s ++ "/" ++ showState n))
   | ["q"] => some (.ok { d with quiet := true } ("ok/" ++ showState s))
   | ["dm"] => some (.ok d ("ok/" ++ showState s))
   | ["sw"] =>
-    match d.oth with
-    | none => some (.ok d ("ok/" ++ showState s))
-    | some o => some (.ok { d with cur := o, oth := some s } ("ok/" ++ showState o))
+    match d.alts with
+    | [] => some (.ok d ("ok/" ++ showState s))
+    | o :: rest => some (.ok { d with cur := o, alts := rest ++ [s] } ("ok/" ++ showState o))
   | ["ne"] =>
     let n := netEffect s
     if n.fault then some .panic else
@@ -240,7 +248,7 @@ def goRootMatchesSpec (ob : String) : Bool :=
 
 structure JState where
   curId : Nat := 0
-  othId : Option Nat := none
+  altIds : List Nat := []
   nextState : Nat := 1
   snaps : List ((Nat × String) × String) := []      -- ((state id, snapshot id), view)
   commits : Array String := #[]
@@ -253,8 +261,9 @@ def judgeStep (j : JState) (a ob : String) : JState :=
     -- cold-cache observation: nothing to judge, but keep track of which StateDB is current
     match a.splitOn ":" with
     | ["ro", _] => { j with curId := j.nextState, nextState := j.nextState + 1 }
-    | ["cp"] => { j with othId := some j.nextState, nextState := j.nextState + 1 }
-    | ["sw"] => (match j.othId with | some o => { j with curId := o, othId := some j.curId } | none => j)
+    | ["cp"] => { j with altIds := (if j.altIds.length ≥ 2 then j.altIds.drop 1 else j.altIds) ++ [j.nextState], nextState := j.nextState + 1 }
+    | ["on", _] => { j with altIds := (if j.altIds.length ≥ 2 then j.altIds.drop 1 else j.altIds) ++ [j.nextState], nextState := j.nextState + 1 }
+    | ["sw"] => (match j.altIds with | o :: rest => { j with curId := o, altIds := rest ++ [j.curId] } | [] => j)
     | _ => j
   else
   let f := a.splitOn ":"
@@ -284,12 +293,20 @@ def judgeStep (j : JState) (a ob : String) : JState :=
       | none => j'
     | none => j
   | ["cp"] =>
-    let j' := { j with othId := some j.nextState, nextState := j.nextState + 1 }
+    let j' := { j with altIds := (if j.altIds.length ≥ 2 then j.altIds.drop 1 else j.altIds) ++ [j.nextState], nextState := j.nextState + 1 }
     if copyPart ob == viewPart ob then j' else bad "copy-differs"
+  | ["on", k] =>
+    let j' := { j with altIds := (if j.altIds.length ≥ 2 then j.altIds.drop 1 else j.altIds) ++ [j.nextState], nextState := j.nextState + 1 }
+    match k.toNat? with
+    | some k =>
+      match j.commits[k]? with
+      | some c => if c == joinWith ";" ((copyPart ob).splitOn ";" |>.take 5) then j' else bad "reopen-differs"
+      | none => j'
+    | none => j'
   | ["sw"] =>
-    match j.othId with
-    | some o => { j with curId := o, othId := some j.curId }
-    | none => j
+    match j.altIds with
+    | o :: rest => { j with curId := o, altIds := rest ++ [j.curId] }
+    | [] => j
   | _ => j
 
 def judge (acts obs : List String) : Option String :=
@@ -302,7 +319,7 @@ def handle (l : String) : String :=
   let (inp, go) := splitCase l
   match fields inp with
   | "h" :: acts =>
-    let d0 : DState := { cur := fresh (fun _ => none), oth := none, committed := #[], classes := #[] }
+    let d0 : DState := { cur := fresh (fun _ => none), alts := [], committed := #[], classes := #[] }
     let m := joinWith " " (runActs acts d0 [])
     if m == go then m ++ "\tagree"
     else
